@@ -31,6 +31,8 @@ EXTENDS Naturals, Sequences, FiniteSets, TLC, Json, SequencesExt, FiniteSetsExt
 
 CONSTANTS N, MaxOps, InclMenu, TxsMenu, DeclMenu, TemplateRepair, GlobRepair,
           Absent,   \* TRUE: files other than the root may be absent initially
+          Big,      \* TRUE: the pool also holds every content in an oversized rendering (never for the root)
+          SizeRepair, \* FALSE: a member that is updated to an oversized text stays a member (the code before 834a3c6)
           InitAll   \* TRUE: every workspace over the pool is an initial state; FALSE: a few hand-picked shapes
 
 Files == 1..N
@@ -74,7 +76,9 @@ Dates       == { Tx[t].date : t \in TxIds }
 
 \* rev: the include directives are written in descending instead of ascending order (the SET of targets is the same;
 \* which of two conflicting commodity formats is in force, and the order of the file list, follow the written order)
-Content == [incl : SUBSET (0..N + 1), txs : Seq(TxIds), decl : SUBSET DeclIds, absent : BOOLEAN, rev : BOOLEAN]
+\* big: the text is longer than limits.maxFileSizeBytes: the file exists, but as an INCLUDED file it is refused (its
+\* directive is reported), so for the view it counts like an absent one until an update makes it small again
+Content == [incl : SUBSET (0..N + 1), txs : Seq(TxIds), decl : SUBSET DeclIds, absent : BOOLEAN, rev : BOOLEAN, big : BOOLEAN]
 
 (* ---- generic sums -------------------------------------------------------- *)
 SumSeq(s, F(_)) == FoldSeq(LAMBDA x, acc : F(x) + acc, 0, s)
@@ -82,8 +86,9 @@ SumOver(S, F(_)) == FoldSet(LAMBDA x, acc : F(x) + acc, 0, S)
 B(b) == IF b THEN 1 ELSE 0
 
 (* ---- contract: the view is a function of the contents ------------------- *)
-GlobExp(c, f) == IF Star \in c[f].incl THEN { g \in GlobSet \ {f} : ~c[g].absent } ELSE {}
-Targets(c, f) == { g \in c[f].incl \ {Ghost, Star} : ~c[g].absent } \cup GlobExp(c, f)
+Out(c, g) == c[g].absent \/ c[g].big
+GlobExp(c, f) == IF Star \in c[f].incl THEN { g \in GlobSet \ {f} : ~Out(c, g) } ELSE {}
+Targets(c, f) == { g \in c[f].incl \ {Ghost, Star} : ~Out(c, g) } \cup GlobExp(c, f)
 RECURSIVE Reach(_, _)
 Reach(c, S) == LET S2 == S \cup UNION { Targets(c, f) : f \in S }
                IN IF S2 = S THEN S ELSE Reach(c, S2)
@@ -126,22 +131,23 @@ VARIABLES c,      \* contents (also what is on disk)
 
 vars == <<c, mem, tpl, gl, h>>
 
-Pool == UNION { { [incl |-> i, txs |-> t, decl |-> d, absent |-> FALSE, rev |-> r] : r \in (IF Cardinality(i) >= 2 THEN BOOLEAN ELSE {FALSE}) } :
+Pool == UNION { { [incl |-> i, txs |-> t, decl |-> d, absent |-> FALSE, rev |-> r, big |-> b] :
+                       r \in (IF Cardinality(i) >= 2 THEN BOOLEAN ELSE {FALSE}), b \in (IF Big THEN BOOLEAN ELSE {FALSE}) } :
                  i \in InclMenu, t \in TxsMenu, d \in DeclMenu }
-NoFile == [incl |-> {}, txs |-> <<>>, decl |-> {}, absent |-> TRUE, rev |-> FALSE]
+NoFile == [incl |-> {}, txs |-> <<>>, decl |-> {}, absent |-> TRUE, rev |-> FALSE, big |-> FALSE]
 
 PayeesOf(cc, f) == { Tx[cc[f].txs[i]].payee : i \in 1..Len(cc[f].txs) }
 
 (* rebuild of the template map: any order of adding the member files *)
 RebuildTpl(cc) == [p \in Payees |-> IF Offers(cc, p) = {} THEN 0 ELSE CHOOSE t \in Offers(cc, p) : TRUE]
 
-E0 == [incl |-> {}, txs |-> <<>>, decl |-> {}, absent |-> FALSE, rev |-> FALSE]
+E0 == [incl |-> {}, txs |-> <<>>, decl |-> {}, absent |-> FALSE, rev |-> FALSE, big |-> FALSE]
 Shapes == { [f \in Files |-> IF f = Root THEN [E0 EXCEPT !.incl = Files \ {Root}] ELSE [E0 EXCEPT !.txs = <<1>>]],
             [f \in Files |-> IF f < N THEN [E0 EXCEPT !.incl = {f + 1}, !.txs = <<2>>] ELSE [E0 EXCEPT !.txs = <<1>>]],
             [f \in Files |-> E0] }
 
 Init == /\ IF InitAll THEN c \in [Files -> Pool \cup (IF Absent THEN {NoFile} ELSE {})] ELSE c \in Shapes
-        /\ ~c[Root].absent
+        /\ ~c[Root].absent /\ ~c[Root].big
         /\ mem = Members(c)
         /\ tpl = RebuildTpl(c)
         /\ gl = [f \in Files |-> IF f \in Members(c) THEN GlobExp(c, f) ELSE {}]
@@ -174,10 +180,11 @@ AddAll(t0, cNew, S) ==
 Update(f, p) ==
     /\ Len(h) <= MaxOps
     /\ p # c[f]
+    /\ (f = Root => ~p.big)
     /\ LET c2 == [c EXCEPT ![f] = p] IN
        /\ c' = c2
        /\ IF IsWorkspaceFile(f)
-          THEN LET m2   == Members(c2)
+          THEN LET m2   == Members(c2) \cup (IF ~SizeRepair /\ p.big /\ f \in mem THEN {f} ELSE {})
                    gone == (mem \cup {f}) \ m2
                    new  == m2 \ (mem \cup {f})
                    t1   == AddTpl(RemoveTpl(tpl, c, f, mem, c), c2, f)         \* SetFileIndex(f)
